@@ -710,6 +710,9 @@ void tokenize_cleanup()
                next->Str().append(tmp->GetStr());
                tmp2 = tmp;
             }
+            // the merged token ends where the last of its parts ended in the input
+            // (the rebuilt text may be shorter: 'new[ ]' becomes 'new[]')
+            const size_t last_col_end = tmp2->GetOrigColEnd();
 
             while ((tmp2 = next->GetNext()) != tmp)
             {
@@ -717,7 +720,7 @@ void tokenize_cleanup()
             }
             next->SetType(CT_OPERATOR_VAL);
 
-            next->SetOrigColEnd(next->GetOrigCol() + next->Len());
+            next->SetOrigColEnd(std::max(last_col_end, next->GetOrigCol() + next->Len()));
          }
          next->SetParentType(CT_OPERATOR);
 
